@@ -141,6 +141,16 @@ def cases(tier, seed):
                     base = k1 * usz + 3 * k2
                     for g in range(max(0, 118 - base), max(0, 131 - base) + 1):
                         yield {"shape": "mixed", "dir": direction, "k1": k1, "unit": unit, "k2": k2, "far": far, "g": g}
+    # (b5) the referencing statement is directly followed by an ORG (the end of a code block): the displacement is still measured
+    #      from the end of the statement itself
+    for mnem, kind in (("LEAX", "pcr"), ("LDY", "pcr"), ("JMP", "pcr"), ("BRA", "rel"), ("LBNE", "rel"), ("BSR", "rel")):
+        for direction in ("bwd", "self"):
+            for n in ((0,) if direction == "self" else (0, 5, 100, 120, 121, 122, 123, 124, 125, 126, 127, 128, 200)):
+                for org in (None, 0x1000):
+                    for ind in ((False, True) if mnem in ("LEAX", "JMP") else (False,)):
+                        if kind == "rel" and mnem != "LBNE" and n > 120:
+                            continue
+                        yield {"shape": "ref", "mnem": mnem, "kind": kind, "dir": direction, "n": n, "k": 0, "org": org, "ind": ind, "org_after": True}
     # (c) bare numeric n,PCR
     for mnem in ("LDA", "LDY", "LEAX", "LDX"):
         for v in c01.V16:
@@ -174,7 +184,10 @@ def cases(tier, seed):
 def build(case):
     sh = case["shape"]
     if sh == "ref":
-        return prog_ref(case["mnem"], case["kind"], case["dir"], case["n"], case["k"], case["org"], case["ind"], case.get("filler", "rmb"))
+        lines = prog_ref(case["mnem"], case["kind"], case["dir"], case["n"], case["k"], case["org"], case["ind"], case.get("filler", "rmb"))
+        if case.get("org_after"):
+            lines += [" ORG $4000", "Z9 NOP"]
+        return lines
     if sh == "mixed":
         inner = [{"idx16": " LDA 300,X", "idx8": " LDA 100,X"}.get(case["unit"]) or UNITS[case["unit"]][0]] * case["k1"] + \
                 [" LDB {},PCR".format("FAR" if case["far"] else "NEAR")] * case["k2"] + [" RMB {}".format(case["g"])]
@@ -221,7 +234,7 @@ def cell_of(case, mnem, kind, dclass):
     if sh == "ref":
         return "{}|{}{}|{}|{}|k={}|{}{}".format(mnem, kind, ".ind" if case["ind"] else "", case["dir"], dclass,
                                                case["k"], "org" if case["org"] is not None else "noorg",
-                                               "" if case.get("filler", "rmb") == "rmb" else "." + case["filler"])
+                                               ("" if case.get("filler", "rmb") == "rmb" else "." + case["filler"]) + (".then-org" if case.get("org_after") else ""))
     if sh == "num":
         return "{}|num{}|{}|{}".format(mnem, ".ind" if case["ind"] else "", c01.vclass(case["v"]), case["sp"])
     if sh == "mixed":
@@ -282,6 +295,8 @@ def check_case(case):
         return res
     image, addrs, syms = out["image"], out["addrs"], out["symbols"]
     origin = out["origin"] or 0
+    if case.get("org_after"):
+        origin = case["org"] or 0          # the image starts with the first block; the reported origin is the later ORG (KF-C02-1)
     if case["shape"] == "num":
         v = case["v"]
         rec, why = R.check_statement_bytes(case["mnem"], image[:-1], addrs[0])
@@ -356,7 +371,7 @@ def _d(x):
 def describe(tier):
     return {
         "alphabet": "(a) 19 short + 19 long branches, forward/backward/self, RMB filler n; targets L, L+-k; with ORG at 6 origins; "
-                    "(b) every indexed-capable mnemonic with L,PCR and [L,PCR], same sweeps; (b2) distances 100..140 built from constant-offset indexed / extended instructions instead of RMB; (b3) spans mixing 0-4 constant-offset indexed statements, 0-3 other unsized PCR statements (near or far) and RMB filler; (b4) the same with 1 or 3 statements of each of 33 size-computation paths (indexed forms, immediates, direct/extended, stack lists, FCB/FDB single and lists, FCC, RMB, long branches) in the span; (c) bare n,PCR over V16 x 3 spellings; "
+                    "(b) every indexed-capable mnemonic with L,PCR and [L,PCR], same sweeps; (b2) distances 100..140 built from constant-offset indexed / extended instructions instead of RMB; (b3) spans mixing 0-4 constant-offset indexed statements, 0-3 other unsized PCR statements (near or far) and RMB filler; (b5) a branch / label,PCR statement directly followed by an ORG; (b4) the same with 1 or 3 statements of each of 33 size-computation paths (indexed forms, immediates, direct/extended, stack lists, FCB/FDB single and lists, FCC, RMB, long branches) in the span; (c) bare n,PCR over V16 x 3 spellings; "
                     "(d) two PCR statements (and PCR + short branch) referencing any of 5 labels around them, both gaps over 112..132"
                     + ("; three PCR statements, 6 reference shapes, three gaps over 112..132" if tier == "thorough" else ""),
         "bound": "n in 0..140 for {} mnemonics, boundary band {} for the rest; +-10 around 32767 for {}".format(
